@@ -90,6 +90,12 @@ func (st *Stats) note(e *Entry, p *Plan, out *RunOut) {
 	if out.Sched.Blocks > 0 {
 		st.Probes["runs-where-a-task-blocked-on-a-lock"]++
 	}
+	if out.Sched.Spawned > 0 {
+		st.Probes["goroutines-started-by-the-code-under-simulation"] += out.Sched.Spawned
+	}
+	if out.Sched.Outcome != "finished" && out.Sched.Polling > 0 {
+		st.Probes["runs-ending-with-tasks-polling-channels-(not-judged)"]++
+	}
 	if out.Sched.Contended > 0 {
 		st.Probes["runs-with-contended-decisions"]++
 	}
@@ -174,23 +180,48 @@ func svcSummary(cfg *gen.Cfg) []string {
 }
 
 func judgeIdentity(prop string, e *Entry, p *Plan, out *RunOut) *Violation {
-	cancelled := map[int]bool{}
-	expected := map[*OpResult]bool{} // operations whose failure is the required outcome
+	// cancellation of an attached context: an operation invoked after the cancel returned must fail without
+	// running user code; one that overlaps the cancel (concurrent tasks) may fail or succeed
+	expected := map[*OpResult]bool{} // operations whose failure is the required (or a permitted) outcome
+	cancelInv, cancelRet := map[int]int64{}, map[int]int64{}
+	ckey := func(r *OpResult) int {
+		c := r.Op.Ctx % p.NCtx
+		if p.Multi {
+			c += 1000 * (r.Task + 1) // every task has a container and contexts of its own
+		}
+		return c
+	}
 	for _, r := range out.Results {
 		if r.Op.Kind == "Cancel" {
-			cancelled[r.Op.Ctx%p.NCtx] = true
-			continue
+			c := ckey(r)
+			if _, ok := cancelInv[c]; !ok {
+				cancelInv[c], cancelRet[c] = r.Invoke, r.Return
+			}
 		}
+	}
+	sequential := len(p.Tasks) == 1
+	for _, r := range out.Results {
 		switch r.Op.Kind {
 		case "GetCtx", "TaggedCtx", "GetterCtx", "MustGetterCtx":
-			if cancelled[r.Op.Ctx%p.NCtx] {
-				if r.Err == "" && r.Panic == "" {
+			c := ckey(r)
+			inv, ok := cancelInv[c]
+			if !ok {
+				continue
+			}
+			failed := r.Err != "" || r.Panic != ""
+			switch {
+			case r.Invoke > cancelRet[c]:
+				if !failed {
 					return mkViolation(prop, "operation-on-cancelled-context-succeeded:"+r.Op.Kind, fmt.Sprintf("%s succeeded although its context had been cancelled", r.Op), e, p, out)
 				}
-				if r.Events > 0 {
+				if sequential && r.Events > 0 {
 					return mkViolation(prop, "construction-under-cancelled-context:"+r.Op.Kind, fmt.Sprintf("%s ran %d user callbacks although its context had been cancelled", r.Op, r.Events), e, p, out)
 				}
-				expected[r] = true // the expected outcome: not an unexpected error below
+				if r.Panic == "" || strings.HasPrefix(r.Op.Kind, "MustGetter") {
+					expected[r] = true
+				}
+			case r.Return > inv && failed && (r.Panic == "" || strings.HasPrefix(r.Op.Kind, "MustGetter")):
+				expected[r] = true // in flight while the context was cancelled
 			}
 		}
 	}
@@ -323,6 +354,11 @@ func judgeC20(e *Entry, p *Plan, out *RunOut) *Violation {
 		return mkViolation("C20", "data-race:"+raceSig(out.RaceText), "the race detector reported under this schedule:\n"+firstReport(out.RaceText), e, p, out)
 	}
 	// (d) bounded progress
+	if out.Sched.Outcome != "finished" && out.Sched.Polling > 0 {
+		// tasks were still polling channels when the run ended: a select case that only a hand-over between
+		// two simulated tasks could serve is not matched by the simulation (sched/run.go) - not judged
+		return nil
+	}
 	if out.Sched.Outcome != "finished" {
 		return mkViolation("C20", "no-progress:"+out.Sched.Outcome, fmt.Sprintf("reader operations did not complete: %s after %d steps; blocked tasks %v", out.Sched.Outcome, out.Sched.Steps, out.Sched.Blocked), e, p, out)
 	}
@@ -389,7 +425,7 @@ func judgeC20(e *Entry, p *Plan, out *RunOut) *Violation {
 	return nil
 }
 
-var reGenPkg = regexp.MustCompile(`^c[0-9]+\.`)
+var reGenPkg = regexp.MustCompile(`^[ce][0-9]+\.`)
 
 var reFrame = regexp.MustCompile(`(?m)^  ([A-Za-z0-9_./*()\-]+)\(\)$`)
 
